@@ -23,7 +23,7 @@ _ABM_ASSUME = [
 K1_C17 = ['InstanceManager.is_valid_instance', 'InstanceManager._timeout_instances', 'InstanceManager._update_instance_timestamp',
           'InstanceManager.keep_instance_alive', 'InstanceManager.get_instance', 'InstanceManager._make_bptk',
           'InstanceManager.create_instance', 'InstanceManager._delete_instance']
-K1_C18 = ['bptk.lock', 'bptk.unlock', 'bptk.is_locked', 'BptkServer._run_steps_resource', 'BptkServer._run_step_resource',
+K1_C18 = ['bptk.lock', 'bptk.unlock', 'bptk.is_locked', 'InstanceManager._get_instance_state#capture', 'BptkServer._run_steps_resource', 'BptkServer._run_step_resource',
           'BptkServer._stream_steps_resource.streamer']
 K1_C15 = ['BptkServer.token_required.decorated']
 K1_C16 = ['InstanceManager.is_valid_instance', 'InstanceManager._timeout_instances', 'InstanceManager._update_instance_timestamp',
@@ -33,7 +33,7 @@ K1_C16 = ['InstanceManager.is_valid_instance', 'InstanceManager._timeout_instanc
           'BptkServer._session_results_resource', 'BptkServer._flat_session_results_resource', 'BptkServer._keep_alive_resource',
           'BptkServer._stop_instance_resource', 'BptkServer._start_instance_resource', 'BptkServer._start_instances_resource',
           'BptkServer._run_step_resource', 'BptkServer._run_steps_resource', 'BptkServer._stream_steps_resource.streamer',
-          'Adapter.save_instance', 'Adapter.load_instance']
+          'Adapter.save_instance', 'Adapter.load_instance', 'InstanceManager._get_instance_state#capture']
 
 _SRV_ASSUME = [
     'Flask: request / make_response / Response behave as declared in the assumed contracts (make_response returns a fresh object with the given status and touches nothing else); dispatch calls exactly the registered view function; uncaught exceptions become 500',
@@ -96,7 +96,7 @@ PROPS = {
                                      'refusing a well-shaped form with an error is allowed by the property and only counted (unsupported forms are listed in the evidence)']),
     'C16': dict(
         mods=['contracts.c16_isolation'], k1=K1_C16, level='proof',
-        harness='verif/native/c16_harness.py', harness_budget=(25, 150), always_harness=True,
+        harness='verif/native/c16_harness.py', harness_budget=(45, 200), always_harness=True,
         explanation='instance isolation in FRAME form, function by function: every InstanceManager operation and every instance-scoped request '
                     'handler (begin/end session, run-step, run-steps, stream-steps generator, session results, keep-alive, stop, restore-on-demand) '
                     'leaves the table entry of every OTHER id unchanged or removes it only when that id\'s own timeout has elapsed, changes the session '
@@ -126,7 +126,7 @@ PROPS = {
         mods=['contracts.c19_state'], k1=['FileAdapter._load_instance', 'BptkServer._load_state_resource', 'InstanceManager.reconstruct_instance',
                                           'InstanceManager._get_instance_state', 'bptk._set_state'],
         level='proof', engines=['contracts.c19_roundtrip'],
-        harness='verif/native/c19_harness.py', harness_budget=(25, 120), always_harness=True,
+        harness='verif/native/c19_harness.py', harness_budget=(45, 180), always_harness=True,
         explanation='fault-tolerance spine with a file-content fault model (absent / old / new / arbitrary bytes): FileAdapter._load_instance is proved TOTAL '
                     '(every exception of open / read / jsonpickle / subscripts is caught, it returns an InstanceState or None); the start-up restore loop and '
                     '/load-state are proved / checked to skip None entries; reconstruct_instance touches no other instance; capture and restore carry the whole '
